@@ -5,6 +5,7 @@ go 1.26.0
 require (
 	github.com/database64128/shadowsocks-go v0.0.0
 	go.uber.org/zap v1.28.0
+	golang.org/x/net v0.57.0
 )
 
 require (
@@ -15,7 +16,6 @@ require (
 	github.com/oschwald/geoip2-golang/v2 v2.2.0 // indirect
 	github.com/oschwald/maxminddb-golang/v2 v2.3.0 // indirect
 	go.uber.org/multierr v1.11.0 // indirect
-	golang.org/x/net v0.57.0 // indirect
 	golang.org/x/sys v0.47.0 // indirect
 	lukechampine.com/blake3 v1.4.1 // indirect
 )
